@@ -7,7 +7,7 @@
    denotations), GV.Front.LexStr (string literal denotations).  [parse] is the
    extracted function, fuel 8*|ts|+8. *)
 From Coq Require Import NArith ZArith List.
-From GV Require Import Front.Token Front.Parse Front.Print Front.Proofs Front.RoundTrip Front.RoundTripMain Front.Exact Front.ErrPos Front.Lex Front.LexProofs Front.LexStr Front.LexStrProofs.
+From GV Require Import Front.Token Front.Parse Front.Print Front.Proofs Front.RoundTrip Front.RoundTripMain Front.Exact Front.Mono Front.ErrPos Front.Stat Front.StatPrint Front.StatRoundTrip Front.StatTotal Front.StatMono Front.Lex Front.LexProofs Front.LexStr Front.LexStrProofs.
 Import ListNotations.
 
 (* parse ∘ print: for EVERY expression tree over all 21 binary and 4 unary
@@ -100,3 +100,42 @@ Theorem C12_long_bracket_denotation : forall level c,
   long_denot (long_open level ++ c ++ long_close level) = skip_first_nl (normalize_nl c).
 Proof. exact long_bracket_denotation. Qed.
 Print Assumptions C12_long_bracket_denotation.
+
+(* ---- statements (Front/Stat.v: Block, Return, Stat, If, For, Local, FunctionStat,
+   FunctionDef, NameAttrib, assignment and call statements) *)
+(* print a chunk, parse it: the same chunk — for every block over all statement
+   forms (local with attribs, assignment, call statement, do, while, repeat,
+   if/elseif/else, numeric and generic for, function / method / local function
+   definitions with their bodies, return, break, goto, labels), provided the
+   grammar's side conditions [wf_block] hold (see StatPrint.v).
+   _partial: 'function' EXPRESSIONS inside expressions are not in the model's
+   expression type (function bodies are reached through function statements). *)
+Theorem C12_parse_chunk_print_partial :
+  forall b, wf_block b = true -> parse_chunk (print_chunk b) = Ok b.
+Proof. exact parse_chunk_print. Qed.
+Print Assumptions C12_parse_chunk_print_partial.
+
+(* the hypothesis is satisfiable, on a chunk with nested bodies *)
+Example C12_wf_example :
+  wf_block (BCons (SLocal [(1%N, AConst)] [ENum 1])
+           (BCons (SFunction [2%N; 3%N] (Some 4%N) [5%N] true
+                     (BCons (SIf (EName 5) (BNil (Some [EEtc])) (IElse (BNil None))) (BNil None)))
+           (BNil (Some [ECall (EName 2) None false []])))) = true.
+Proof. reflexivity. Qed.
+
+(* [parse_chunk] (block-nesting fuel 2*|ts|+4, expression fuel 8*|ts|+8) never runs out of fuel … *)
+Theorem C12_parse_chunk_total : forall ts, parse_chunk ts <> OutOfFuel.
+Proof. exact parse_chunk_total. Qed.
+Print Assumptions C12_parse_chunk_total.
+
+(* … more fuel never changes an answer … *)
+Theorem C12_parse_chunk_fuel_mono : forall (n m : nat) ts, (n <= m)%nat ->
+  le_res (parse_chunk_fuel n ts) (parse_chunk_fuel m ts).
+Proof. exact parse_chunk_fuel_mono. Qed.
+Print Assumptions C12_parse_chunk_fuel_mono.
+
+(* … and a syntax error in a chunk is reported at a token of the chunk (or its end) *)
+Theorem C12_chunk_first_error_token_line :
+  forall ts rest, parse_chunk ts = Err rest -> exists pre, ts = pre ++ rest.
+Proof. exact chunk_first_error_token. Qed.
+Print Assumptions C12_chunk_first_error_token_line.
